@@ -412,8 +412,9 @@ func (p *streamPool) getOrOpenStream() (*Stream, error) {
 	}
 	for stream := p.pop(); stream != nil; stream = p.pop() {
 		if !stream.Session().IsClosed() {
-			// ensure return an open stream
-			if stream.IsOpen() {
+			// ensure return an open stream that carries nothing of its previous use: data that
+			// arrived after the stream was put back (a late response) belongs to the previous user
+			if stream.IsOpen() && stream.reset() == nil {
 				return stream, nil
 			}
 		}
